@@ -8,6 +8,14 @@ ENGINE_NOTE = ("Trusted: Coq 8.16.1 kernel (vm_compute for table obligations; no
                "reader-level Base.__new__ count, error line, scope depth, table structure). Modelled, not verified: "
                "the statement-level match bodies (leaf oracle L, a section variable: theorems hold for every L).")
 
+READER_NOTE = ("Trusted: Coq 8.16.1 kernel (no axioms; vm_compute for the computed examples); the hand-written character-level "
+               "reader model (coq/Model/Reader.v, Text.v, SplitLine.v: get_single_line, handle_inline_comment, the free-form "
+               "continuation loop, the fixed-form branch, OpenMP sentinels, cpp lines, ';' splitting, get/put) tied to "
+               "readfortran.py by the correspondence check: the extracted OCaml model and the real reader must deliver the "
+               "same items (kind, text, label, construct name, span, in-line flag) on every layout tried (thousands of "
+               "generated layouts + structured fuzz per run). Not modelled: pyf/f77/strict modes, f2py directives, tab "
+               "expansion; ';' splitting is modelled on the original text (equal up to blanks next to parentheses).")
+
 CLAIMED = {
     "C09": dict(
         design_ref="DESIGN.md 4 (C09), 3.4",
@@ -95,4 +103,27 @@ CLAIMED["C06"] = dict(
     note=ENGINE_NOTE + " Partial (named _partial): which exceptions the ~400 statement-level match bodies raise, "
          "termination (the model uses explicit fuel) and wall-clock time are explored, not proved.",
     technique="Rocq proof (exception-flow invariant by induction over engine model) + regenerated tables + correspondence + mutation/random-text fuzzing with timeouts")
+CLAIMED["C12"] = dict(
+    design_ref="DESIGN.md 4 (C12), 3.2",
+    text="Theorems (every reader state, every item the reader can hand out unchanged): reading after push-back "
+         "returns the same item and restores the state; reading k items ahead and restoring them leaves a reader "
+         "from which exactly those items are read again (induction over k). Computed instances of the model on "
+         "continued/commented/';'-joined/fixed-form sources. Tie: model == real reader on generated layouts and "
+         "structured fuzz. Search: items(reader) == expected (text mod blanks, label, name, span) for known "
+         "layouts in free and fixed form; read-ahead/restore walks incl. two levels of INCLUDE.",
+    note=READER_NOTE + " Partial: 'each statement exactly once with exact span for every layout' is not a theorem; "
+         "it is the correspondence plus the end-to-end comparison.",
+    technique="Rocq proof (push-back laws of the reader model by induction) + character-level model/reader correspondence + layout and push-back-walk search")
+CLAIMED["C04"] = dict(
+    design_ref="DESIGN.md 4 (C04), 3.2",
+    text="Theorems about the reader model: the free-form continuation loop joins n pieces cut at arbitrary character "
+         "positions (pieces free of quotes/'!'/'&', leading '&') to exactly their concatenation, with exact span and "
+         "consumption, for every n and every reader state (induction over the pieces); comment and blank lines "
+         "inside a continuation are transparent for every quote state. Tie: model == real reader on exhaustive "
+         "single-break layouts of six statements and on random layouts. Search: the same exhaustive enumeration "
+         "against the one-line form, and tree(L(P)) == tree(canonical(P)) for generated programs x layouts.",
+    note=READER_NOTE + " Partial (named _partial): breaks inside literals, ';' joins, label/name extraction and case "
+         "are covered by correspondence + end-to-end only; tree equality also needs blank-insensitive statement "
+         "matchers (three recorded exceptions).",
+    technique="Rocq proof (continuation-join theorem by induction over pieces) + character-level model/reader correspondence + exhaustive small-statement layout enumeration + program-level layout search")
 NOT_CLAIMED = {}
